@@ -1,12 +1,12 @@
-\* Recording; W=3; two deployments; graph dumped, a covering sample of paths replayed.
+\* Recording; W=3; one deployment asked for by block acceptance; graph dumped, a covering sample of paths replayed.
 SPECIFICATION Spec
 CONSTANTS
   W = 3
   NetThr = 2
-  K = 2
+  K = 1
   Starts = {0}
-  Timeouts = {0}
-  Thrs = {0, 3}
+  Timeouts = {0, 4}
+  Thrs = {0}
   MinHs = {0}
   Alwayss = {0}
   Implicit = {1}
@@ -20,8 +20,8 @@ CONSTANTS
   DtBase = 0
   MTPSpan = 11
   QueryAll = FALSE
-  NextVerOn = TRUE
+  NextVerOn = FALSE
   CheckAll = TRUE
   Record = TRUE
-  VerChoices <- Ver2Two
+  VerChoices <- Ver1SigNone
 INVARIANTS TypeOK QueryIsRef CacheSound StateMachine GateFirst NextVersionExact
